@@ -16,14 +16,26 @@ every nesting depth, every input list, every flag set of the property, every fue
 element library: nothing in the proofs looks inside `CoreLib.elemFn`, so they cover every element whose table
 entry is the `process_element` boilerplate of a first-order function (237 entries of the current table).
 
-Stage reached: closures — lambdas (plain, map, filter, sort) with the call protocol —, list literals and named
-functions (definition, the parameter prologue with counts, names and `*`, the call by reference on the caller's
-stack, recursion), on top of the closure-free fragment (literals, first-order elements, the 21 hand-written stack /
+Stage reached: **every structure of the property**.  Literals, first-order elements, the 21 hand-written stack /
 context / input / register / printing templates of the closed core, variables, `if` chains, `for`, `while`, break /
-continue, the implicit output).  The full statement — the same for modifiers too — is `compile_correct` below as a
-comment; what is proved is named `…_partial_no_modifiers`.
-The remaining constructs are executable in both interpreters and compared on every generated program by the
-`py-vs-ref`, `py` and `ref` streams of the check.
+continue, lambdas (plain, map, filter, sort) with the call protocol, list literals, named functions (definition,
+parameter prologue with counts / names / `*`, call by reference on the caller's stack, recursion), and the eight
+modifiers `& v ~ ß ƒ ɖ ₌ ₍` (the operand wrapped by `lambda_wrap`, `function_A = pop(stack, 1, ctx)`, the template),
+in any nesting, with the implicit output under the flags of the property.
+
+What is still a hypothesis of `compile_correct` (besides "the reference semantics gives the run a meaning", which
+is what makes the theorem one-directional):
+
+* `Frag env.elements prog` — no longer a restriction on structures: `fragS` is `true` or the conjunction of its parts
+  for every constructor; what it restricts is the *element tokens*: each must have a table entry of one of the shapes
+  the element lemmas cover (237 `process_element` boilerplates, the 21 core templates, map / filter / sort-by, the call
+  element), and only integer literals and variable get / set among the other token kinds;
+* `ModsOK env.modifiers` — the modifier table holds exactly the eight templates the modifier lemmas were proved for
+  (`modifier_templates_as_expected`: true of the regenerated table, by kernel evaluation).
+
+Where the reference semantics says `unmodelled` (a function defined inside a function, a `continue` in a `while`,
+`return` out of a loop inside a lambda, strings, non-integer numbers, function values printed or iterated, …) the
+theorem says nothing; those runs are covered by the `py`, `ref` and `py-vs-ref` streams of the check only.
 -/
 namespace Vy.Sem
 open Vy PyAst
@@ -36,47 +48,38 @@ instance (tbl : List Gen.Entry) (prog : List Structure) : Decidable (Frag tbl pr
 /-- **Simulation**: from related states (any frame depth, any closure tables), whenever the reference semantics of
     `prog` is defined, the Python semantics of the transpiled code yields the corresponding signal and a related state —
     every program of the fragment, every starting identifier, every fuel. -/
-theorem simulation (cfg : Cfg) (env : TEnv) (hE : cfg.elements = env.elements)
+theorem simulation (cfg : Cfg) (env : TEnv) (hE : cfg.elements = env.elements) (hM : ModsOK env.modifiers)
     (prog : List Structure) (hf : Frag env.elements prog) (k : Nat) (code : List PyStmt) (k' : Nat)
     (ht : transpileL env k prog = .ok (code, k')) (n : Nat) (A : Option Val) (σ σ' : RSt) (π : PSt) (sg : Sig)
     (h : Rel env A σ π) (hr : execL cfg n prog σ = .ok (sg, σ')) :
     ∃ π', execPL cfg n code π = .ok (sigP sg, π') ∧ Post env A sg σ' π' :=
-  simAt_all cfg env hE n prog k code k' hf ht A σ π sg σ' h hr
+  simAt_all cfg env hE hM n prog k code k' hf ht A σ π sg σ' h hr
 
 /-- **The call protocol**: calling the function value number `id` in the reference semantics — with the arguments popped
     from `argStack`, by reference (the call element, `arity = none`) or from `safe_apply` (`arity = some k`) — and calling
     the Python function object with the same number return the same result, leave the same rest of the argument list,
     and related states. -/
-theorem call_protocol (cfg : Cfg) (env : TEnv) (hE : cfg.elements = env.elements) (n : Nat) (A : Option Val) (σ σ' : RSt) (π : PSt)
+theorem call_protocol (cfg : Cfg) (env : TEnv) (hE : cfg.elements = env.elements) (hM : ModsOK env.modifiers) (n : Nat) (A : Option Val) (σ σ' : RSt) (π : PSt)
     (h : Rel env A σ π) (id : Nat) (argStack : List Val) (arity : Option Nat) (byref : Bool) (res : Val) (rest : List Val)
     (hr : callLam cfg (n + 1) id argStack (arity.map (fun (a : Nat) => (a : Int))) σ = .ok (res, rest, σ')) :
     ∃ π', callPy cfg (n + 1) id (lamPos id argStack arity) [] byref π = .ok (.list [res], some (.list rest.reverse), π') ∧
       Rel env A σ' π' :=
-  sim_callLam cfg n (simAt_all cfg env hE n) h id argStack arity byref res rest σ' hr
+  sim_callLam cfg n (simAt_all cfg env hE hM n) h id argStack arity byref res rest σ' hr
 
 /-- **The named-function call**: `@f;` in the reference semantics — parameters popped from the caller's stack left to
     right, the body in a frame of its own, the function's whole stack appended to what the caller has left — and
     `stack += VAR_f(stack, self=None, ctx=ctx)` in the Python semantics end in related states. -/
-theorem named_call_protocol (cfg : Cfg) (env : TEnv) (hE : cfg.elements = env.elements) (n : Nat) (A : Option Val) (σ σ' : RSt)
+theorem named_call_protocol (cfg : Cfg) (env : TEnv) (hE : cfg.elements = env.elements) (hM : ModsOK env.modifiers) (n : Nat) (A : Option Val) (σ σ' : RSt)
     (π : PSt) (h : Rel env A σ π) (name : Str) (sg : Sig)
     (hr : callNamed cfg (n + 1) (sanitise name) σ = .ok (sg, σ')) :
     ∃ π', execPL cfg (n + 1) (fnCallTemplate name) π = .ok (.normal, π') ∧ sg = .normal ∧ Rel env A σ' π' :=
-  sim_callNamed cfg n (simAt_all cfg env hE n) h name sg σ' hr
+  sim_callNamed cfg n (simAt_all cfg env hE hM n) h name sg σ' hr
 
-/-
-Full statement (all structures of the property):
-
-theorem compile_correct (cfg env) (hE : cfg.elements = env.elements) (hM : cfg.modifiers = env.modifiers)
-    (prog : List Structure) (code) (ht : transpileAst env prog = .ok code) (fuel flags inputs obs)
-    (hr : refProgram cfg fuel flags inputs prog = .ok obs) : pyProgram cfg fuel flags inputs code = .ok obs
-
-Proved below for the fragment without modifiers (those are covered by the three correspondence streams).
--/
-
-/-- **C01, everything but modifiers**: a program of the fragment that the reference semantics runs to an observation
-    (final stack, printed text including the implicit output under the given flags) is run to the same
-    observation by the Python semantics of its transpilation — all programs, inputs, flags, fuel. -/
-theorem compile_correct_partial_no_modifiers (cfg : Cfg) (env : TEnv) (hE : cfg.elements = env.elements)
+/-- **C01**: a program that the reference semantics runs to an observation (final stack, printed text including the
+    implicit output under the given flags) is run to the same observation by the Python semantics of its
+    transpilation — every structure and modifier of the property, all programs over the covered element tokens, all
+    inputs, flags and fuel. -/
+theorem compile_correct (cfg : Cfg) (env : TEnv) (hE : cfg.elements = env.elements) (hM : ModsOK env.modifiers)
     (prog : List Structure) (hf : Frag env.elements prog) (code : List PyStmt)
     (ht : transpileAst env prog = .ok code) (fuel : Nat) (flags : String) (inputs : List Val)
     (obs : List Val × String) (hr : refProgram cfg fuel flags inputs prog = .ok obs) :
@@ -93,7 +96,7 @@ theorem compile_correct_partial_no_modifiers (cfg : Cfg) (env : TEnv) (hE : cfg.
     | ok r1 =>
       obtain ⟨sg, σ⟩ := r1
       simp only [hex, R_ok_bind] at hr
-      obtain ⟨π, he, hP⟩ := simAt_all cfg env hE fuel prog 0 c k' hf htl Option.none _ _ sg σ (rel_init flags inputs) hex
+      obtain ⟨π, he, hP⟩ := simAt_all cfg env hE hM fuel prog 0 c k' hf htl Option.none _ _ sg σ (rel_init flags inputs) hex
       unfold pyProgram
       rw [execPL_orPass, he]
       cases sg with
@@ -111,7 +114,7 @@ theorem compile_correct_partial_no_modifiers (cfg : Cfg) (env : TEnv) (hE : cfg.
       | ret v => simp at hr
 
 /-- the fragment is not empty: `3(n2%[+|-X]:,){←a|←a‹→a}λ2|+[X];†ƛnd;` — `n`, a dyad, an `if` with a break inside a
-    `for`, duplicate and print, a `while` on a variable, a lambda with an early return called at once, a map lambda, a list literal `⟨1|:+|⟩`, a function `@f:1:x|←x+;` and its call `@f;` -/
+    `for`, duplicate and print, a `while` on a variable, a lambda with an early return called at once, a map lambda, a list literal `⟨1|:+|⟩`, a function `@f:1:x|←x+;` and its call `@f;`, the modifiers `v+`, `&‹`, `ƒ+`, `₌d‹`, `ßd`, `~λ2|+;` -/
 example : Frag Gen.elements
     [ .generic ⟨.number, [51]⟩,
       .forS [] [ .generic ⟨.general, [110]⟩, .generic ⟨.number, [50]⟩, .generic ⟨.general, [37]⟩,
@@ -121,8 +124,14 @@ example : Frag Gen.elements
       .lam (some 2) [.generic ⟨.general, [43]⟩, .ifS [[.brk .lam]]], .generic ⟨.general, [8224]⟩,
       .lamOp .lmap [.generic ⟨.general, [110]⟩, .generic ⟨.general, [100]⟩],
       .listS [[.generic ⟨.number, [49]⟩], [.generic ⟨.general, [58]⟩, .generic ⟨.general, [43]⟩], []],
-      .fnDef [102] [[49], [120]] [.generic ⟨.vget, [120]⟩, .generic ⟨.general, [43]⟩], .fnCall [102] ] := by
+      .fnDef [102] [[49], [120]] [.generic ⟨.vget, [120]⟩, .generic ⟨.general, [43]⟩], .fnCall [102],
+      .mon [118] (.generic ⟨.general, [43]⟩), .mon [38] (.generic ⟨.general, [8249]⟩), .mon [402] (.generic ⟨.general, [43]⟩),
+      .dy [8332] (.generic ⟨.general, [100]⟩) (.generic ⟨.general, [8249]⟩), .mon [223] (.generic ⟨.general, [100]⟩),
+      .mon [126] (.lam (some 2) [.generic ⟨.general, [43]⟩]) ] := by
   decide +kernel
+
+/-- the regenerated modifier table holds the eight templates the modifier lemmas were proved for, and nothing else -/
+theorem modifier_templates_as_expected : ModsOK Gen.modifiers := by decide +kernel
 
 /-- how much of the current element table the parametric element lemma covers -/
 theorem table_coverage : (Gen.elements.filter elemOK).length = 237 := by decide +kernel
